@@ -69,9 +69,24 @@ def run(tier, seed):
             continue
         ok += 1
     log("[replay] %d honest FRI runs (serialized proofs, duplicates, reuse), %d accepted" % (len(cases), ok))
+    # the folding identity: apply_drp over ToyField for every folding factor, recomputed from the coefficient slices (Trace_Fold.tla)
+    ftrace = os.path.join(wd, "fold.ndjson")
+    rcf, outf, errf = vlib.run_harness(exe, ["fold", "--out", ftrace, "--maxlog", "6" if tier == "quick" else "8", "--seed", str(seed)])
+    if rcf != 0:
+        raise vlib.ToolError("fold harness rc=%s: %s" % (rcf, errf[-300:]))
+    fold_events = json.loads(outf)["events"]
+    rt = vlib.tlc_validate("Trace_Fold", "Trace_Fold", ftrace, tag="Trace_Fold", timeout=3000, xmx="4g")
+    if not rt.ok:
+        line, _ = vlib.rejected_event(rt.out)
+        recs = open(ftrace).read().splitlines()
+        ev = json.loads(recs[line - 1]) if 0 < line <= len(recs) else {}
+        v.violation("fri/folding-identity/%s/N%s" % (ev.get("ev", "?"), ev.get("N", "?")),
+                    "apply_drp / fold_positions disagrees with the folding definition (folding factor %s, %s evaluations, offset %s, challenge %s)" % (
+                        ev.get("N"), ev.get("m"), ev.get("offset"), ev.get("alpha")), {"trace": ftrace, "line": line, "event": ev})
+    log("[trace] %d folding events (factors 2/4/8/16, offsets 1/generator/other, random and boundary challenges): %s" % (fold_events, "accepted" if rt.ok else "REJECTED"))
     rc = v.finish()
     vlib.write_evidence(PID, tier, seed, "model_checking", {
-        "states": r.distinct, "transitions": r.generated, "traces_validated_against_impl": len(cases),
+        "states": r.distinct, "transitions": r.generated, "traces_validated_against_impl": len(cases) + fold_events,
         "samples": cases[:2] + [p for p in r.printed if p.get("kind") == "layout"][:2],
         "evaluations": len(cases), "distinct_nontrivial": len(cases),
         "rule": "every well-formed (degree bound, blowup 2..128, folding 2/4/8/16, remainder degree 0..255) tuple of MC_Fri.tla with LDE size <= 2^%d%s; "
